@@ -34,6 +34,16 @@ CHECKS = {
    technique="deterministic simulation of operation histories on bit stores against a Vec<bool> reference model, with capacity and short-source faults",
    text="Seeded operation histories (mixed write_bit / write_bits* / read_* / with_write_position_at / with_max_read / set_pos / set_len / conversions) on BitBuffer, Bits and the two slice tuples, checked operation by operation against a Vec<bool> model: copied bits equal, every other destination bit unchanged, cursor advanced by n, too-short source or destination gives Err not panic, BitBuffer always ceil(bit_len/8) bytes with zero padding. Offsets/lengths biased to every (src%8, dst%8, len%8) class, the bulk threshold and exact-fit / one-bit-short capacities.",
    note="Trusted: the Vec<bool> model. Assumed: documented panics are preconditions; content and cursor after a failed operation are unspecified (model re-synchronises); ensure_can_write_additional_bits is not called directly; the property's exhaustive-for-<=5-bytes clause is an enumeration and is not performed."),
+ "C19": dict(
+   category="exploration", design_ref="5.C19",
+   technique="deterministic simulation run in two differently built processes (build skew); outcome logs of identical seeded fault histories diffed",
+   text="The same seeded UPER fault histories (C04 scenario generator: fault-free and corrupted deliveries, all zoo types incl. cross-type decoding) are executed by two worker binaries, one built with default features and one with descriptive-deserialize-errors; per decode attempt the Ok value hash / ErrorKind with payload / panic site, reader position and length, and whether bits_remaining() panicked must be identical line by line, and the per-chunk event-log hashes must agree. Determinism of the simulator (one tape = one history) is what makes the comparison exact.",
+   note="Trusted: the simulator's determinism (re-checked by the resample of every run and by ./check selftest). Error equality is ErrorKind variant + payload without backtraces; diagnostics content is not compared. Zoo types only."),
+ "C20": dict(
+   category="fault_enumeration", design_ref="5.C20",
+   technique="deterministic simulation of io::Read/io::Write objects under the DER codec: short transfers, EINTR, writer crash@k, reader EOF/error@k, fault-point enumeration",
+   text="The code under the property is blanket impls over std::io::{Read, Write}, so the simulator owns those objects: every item written (identifier 4 classes x number < 31, length, boolean, i64/u64 from the boundary families, typed BOOLEAN/INTEGER of 8 widths/ENUMERATED) must read back equal consuming exactly the bytes produced under every legal non-failing behaviour (1..n bytes per call, Interrupted); after a writer crash at byte k the items completely written before k must still read back exactly; a true whose content octet is replaced by any non-zero octet reads true. Fault-point enumeration covers every byte offset (crash, EOF, error) and chunk sizes 1..8 for sampled streams <= 64 bytes.",
+   note="Trusted: FaultyRead/FaultyWrite shims. Assumed: integer primitives are read with the byte length the writer produced; behaviour the property is silent about (torn item, failing reader) is recorded as diagnostics only; canonical DER form and tag numbers >= 31 are out of scope."),
 }
 
 def main():
